@@ -188,6 +188,19 @@ func (e *Exec) conOf(fr *frame, fn *ssa.Function) *Contract {
 	return nil
 }
 
+// forcedInline: the harness on top names this callee in its inline-calls clause.
+func (e *Exec) forcedInline(name string) bool {
+	if len(e.hstack) == 0 {
+		return false
+	}
+	for _, n := range e.hstack[len(e.hstack)-1].con.InlineCalls {
+		if strings.HasSuffix(name, n) {
+			return true
+		}
+	}
+	return false
+}
+
 // callStatic: intrinsic model, contract, inline or havoc.
 func (e *Exec) callStatic(fr *frame, st *State, fn *ssa.Function, args, bindings []*smt.Term, resType types.Type, pos token.Pos) *smt.Term {
 	name := fn.String()
@@ -236,7 +249,7 @@ func (e *Exec) callStatic(fr *frame, st *State, fn *ssa.Function, args, bindings
 		e.bumpAlloc(st)
 		return e.freshVal(st, "ext", resType)
 	}
-	if con := e.conOf(fr, fn); con != nil && !con.Inline && e.spec == 0 {
+	if con := e.conOf(fr, fn); con != nil && !con.Inline && e.spec == 0 && !e.forcedInline(name) {
 		return e.applyContract(st, con, args, resType, pos)
 	}
 	// a contract written for another instantiation of the same generic function
